@@ -21,7 +21,7 @@ at the head of a turn, depth of the options stack = depth of the group stack" (m
 consuming at least one rune; the `{`-fallback of the quantifier scan (`textto(startpos-1)`, which would
 not consume) is proved dead after `isTrueQuantifier`.
 -/
-import RegexVerif.Lemmas.ParserMain
+import RegexVerif.Lemmas.ParserRoot
 
 namespace RegexVerif.Props.C10
 open RegexVerif.Parser
@@ -201,5 +201,26 @@ example : ∃ t, parse (env0 [97]) = .ok t := ⟨_, by rfl⟩
 example : parse (env0 [41]) = .error .unexpectedParen := by rfl
 set_option maxRecDepth 8000 in
 example : parse (env0 [97, 123, 50, 44, 49, 125]) = .error .invalidRepeatSize := by rfl
+
+/-- **The root of the raw tree (partial `parse_wf`).**  Whenever `Parse` returns a tree, its root is
+    the Capture node number 0 with exactly one child (the Alternate node of the whole pattern): the
+    first two conjuncts of `wfTree` and the child count of the root.  Invariant: the group at the bottom
+    of the group stack is the Capture 0 that `scanRegex` starts with, without children until the final
+    `addGroup`.
+
+    FULL STATEMENT (not proved): `parse_wf : parseFuel E fuel = .ok t → wfTree t = true` — every node
+    locally well-formed (child count per node type, a set exactly on the set family, `0 ≤ M ≤ N`, Multi of
+    at least two runes) and every Ref / BackRefCond / Capture number registered in `caps`.  The last
+    part needs a simulation between the capture pre-scan and the main scan (they must agree on which
+    parentheses capture); the driver evaluates `wfTree` on every answer of leg Pr instead. -/
+theorem parse_wf_partial (pat : List Nat) (opts : Opts) (mco : Bool) (orc : Oracles) (fuel : Nat)
+    (hf : pat.length < fuel) (t : RawTree)
+    (h : parseFuel { pat := pat, opts := opts, mco := mco, orc := orc } fuel = .ok t) :
+    t.root.t = .capture ∧ t.root.m = 0 ∧ t.root.kids.length = 1 :=
+  parseFuel_root { pat := pat, opts := opts, mco := mco, orc := orc } fuel hf t h
+
+set_option maxRecDepth 8000 in
+/-- non-vacuity: `a` parses (so the hypothesis holds for its tree) -/
+example : ∃ t, parseFuel (env0 [97]) 2 = .ok t ∧ t.root.kids.length = 1 := ⟨_, by rfl, by rfl⟩
 
 end RegexVerif.Props.C10
